@@ -40,7 +40,7 @@ def _rand_cell(rng, system):
             al = rng.randint(40, 115)
             return (a, al), (a, a, a, al, al, al)
         if system == "Monoclinic":
-            be = rng.randint(60, 130)
+            be = rng.choice([x for x in range(60, 131) if x != 120])     # four bare numbers (a, a, c, 120) ARE the hexagonal short form
             return (a, b, c, be), (a, b, c, 90, be, 90)
         if system == "Triclinic":
             while True:
